@@ -1400,7 +1400,12 @@ class PolyhedralTermList(TermList):  # noqa: WPS338
         for useful_term in useful_context:
             new_context = context.copy()
             new_context.terms.remove(useful_term)
-            new_term = useful_term.isolate_variable(var_to_elim)
+            # The expression that replaces var_to_elim is bounded from above when var_to_elim
+            # has a positive coefficient in term, and from below otherwise. The recursive call
+            # always bounds from above, so we hand it the expression with the orientation it
+            # has once substituted in term, and undo the orientation afterwards.
+            orientation = term.get_sign(var_to_elim)
+            new_term = useful_term.isolate_variable(var_to_elim).multiply(orientation)
             new_no_vars = no_vars.copy()
             new_no_vars.append(var_to_elim)
             try:  # noqa: WPS229
@@ -1410,7 +1415,7 @@ class PolyhedralTermList(TermList):  # noqa: WPS338
                 total_calls += recursive_count
                 if return_term is None:
                     continue
-                return term.substitute_variable(var_to_elim, return_term), total_calls
+                return term.substitute_variable(var_to_elim, return_term.multiply(orientation)), total_calls
             except ValueError:
                 total_calls += 1
 
